@@ -113,6 +113,8 @@ class Driver:
         self.dbdir = tempfile.mkdtemp(prefix='C13db.', dir=str(base))
         self.eng = kdrv.Engine(workdir=self.dbdir)
         self.cap = Capture()
+        self.ctx = ctx
+        self.setup_log = []        # add_object specs since the store was last emptied (what a replay has to redo)
         self.attach()
 
     def attach(self):
@@ -168,6 +170,7 @@ class Driver:
             con.commit()
         finally:
             con.close()
+        self.setup_log = []
 
     def run(self, item, version=(1, 2), user='alice'):
         """-> observation dict {status, reason, crash: None | {site, exc}, crypto: [(fn, outcome)], warned}"""
@@ -236,8 +239,30 @@ def _secret(otype, empty=False):
     return kdrv.secret_for(t)
 
 
+class SetupFailed(Exception):
+    pass
+
+
+def _setup_step(drv, spec, k, what, item, user):
+    """One request of the store set-up.  It must succeed; a GENERAL_FAILURE here is itself a violation of the property
+    (every set-up request is well-formed), reported with the specs a replay has to redo."""
+    drv.cap.reset()
+    r = drv.eng.request([item], user=user)
+    it = r['items'][0] if r['items'] else {'status': 'REQUEST_ERROR', 'reason': (r['error'] or {}).get('reason'), 'message': (r['error'] or {}).get('message')}
+    if it['status'] == 'SUCCESS':
+        return it
+    site = drv.cap.sites[-1] if drv.cap.sites else {}
+    if it['reason'] == 'GENERAL_FAILURE' and hasattr(drv.ctx, 'violation'):
+        sig = {'op': item[0].name, 'site': site.get('site'), 'exc': site.get('exc'), 'detail': site.get('detail', ''), 'stage': 'store-setup'}
+        drv.ctx.violation(sig, {'setup': [[sp, kk] for sp, kk in drv.setup_log], 'failing_step': what, 'version': [1, 2], 'user': user,
+                                'observed': {'status': it['status'], 'reason': it['reason'], 'crash': site}},
+                          'store set-up: %s of a %s answered GENERAL_FAILURE (%s)' % (what, spec['type'], site_string(site) if site else None))
+    raise SetupFailed('store setup failed: %s %r -> %s %s' % (what, spec, it['reason'], it['message']))
+
+
 def add_object(drv, spec, k):
     """Creates one stored object per the spec through the engine's own operations; returns its uid (string) or None."""
+    drv.setup_log.append((dict(spec), k))
     eng = drv.eng
     user = spec['owner']
     mask = ALL_MASK if spec['mask'] == 'all' else []
@@ -253,9 +278,7 @@ def add_object(drv, spec, k):
         if otype != 'OPAQUE_DATA' and mask:
             attrs.insert(0, kdrv.attr(AT.CRYPTOGRAPHIC_USAGE_MASK, mask))
         item = kdrv.register(OT[otype], secret=_secret(otype, spec.get('empty')), attrs=attrs)
-    r = eng.request([item], user=user)
-    it = r['items'][0]
-    assert kdrv.ok(it), ('store setup failed', spec, it['reason'], it['message'])
+    it = _setup_step(drv, spec, k, 'creating', item, user)
     p = it['payload']
     if item[0] == OP.CREATE_KEY_PAIR:
         uid = str(p['public_key_unique_identifier'] if otype == 'PUBLIC_KEY' else p['private_key_unique_identifier'])
@@ -269,8 +292,7 @@ def add_object(drv, spec, k):
              'Compromised': [kdrv.revoke(uid, enums.RevocationReasonCode.KEY_COMPROMISE)],
              'Destroyed': [kdrv.destroy(uid)]}[st]
     for s in steps:
-        rr = eng.request([s], user=user)
-        assert kdrv.ok(rr['items'][0]), ('store setup step failed', spec, rr['items'][0]['message'])
+        _setup_step(drv, spec, k, s[0].name.lower(), s, user)
     return uid
 
 
@@ -486,6 +508,10 @@ def mk_secret(s):
     if s.get('wrap') is not None:
         w = s['wrap']
         cpar = cattrs.CryptographicParameters(block_cipher_mode=MODE.NIST_KEY_WRAP)
+        if w.get('ints') is not None:       # boundary integers in every numeric field of the parameters (they reach the database)
+            n = w['ints']
+            cpar = cattrs.CryptographicParameters(block_cipher_mode=MODE.NIST_KEY_WRAP, iv_length=n, tag_length=n, fixed_field_length=n,
+                                                  invocation_field_length=n, counter_length=n, initial_counter_value=n, random_iv=False)
         eki = cobjects.EncryptionKeyInformation(unique_identifier='1', cryptographic_parameters=(cpar if w.get('eki_params') else None)) if w.get('eki') else None
         mski = cobjects.MACSignatureKeyInformation(unique_identifier='1', cryptographic_parameters=(cpar if w.get('mski_params') else None)) if w.get('mski') else None
         wrap = cobjects.KeyWrappingData(wrapping_method=enums.WrappingMethod.ENCRYPT, encryption_key_information=eki,
@@ -501,11 +527,19 @@ def mk_secret(s):
             length += 8
         kw = dict(cryptographic_algorithm=alg, cryptographic_length=length, key_format_type=fmt, key_value=value, key_wrapping_data=None)
         if t == 'SPLIT_KEY':
-            kw.update(split_key_parts=3, key_part_identifier=1, split_key_threshold=2, split_key_method=enums.SplitKeyMethod.XOR,
-                      prime_field_size=None)
+            n = s.get('split_int', 3)
+            kw.update(split_key_parts=n, key_part_identifier=(1 if n == 3 else n), split_key_threshold=(2 if n == 3 else n),
+                      split_key_method=enums.SplitKeyMethod.XOR, prime_field_size=s.get('pfs'))
         sec = kdrv.core_secret(OT[t], **kw)
         if wrap is not None:
             sec.key_block.key_wrapping_data = wrap
+        miss = s.get('missing')
+        if miss in ('alg', 'both'):
+            sec.key_block.cryptographic_algorithm = None
+        if miss in ('len', 'both'):
+            sec.key_block.cryptographic_length = None
+        if miss == 'value':
+            sec.key_block.key_value = None
         return sec
     if t == 'CERTIFICATE':
         return kdrv.core_secret(OT[t], certificate_type=enums.CertificateType[s.get('cert_type', 'X_509')], certificate_value=b'\x30\x82\x01' + b'\x44' * 20)
@@ -725,6 +759,21 @@ def global_menu(ver):
                   {'mski': True, 'mski_params': False}, {'eki': True, 'eki_params': True, 'mski': True, 'mski_params': False}, {}):
             out.append({'op': 'Register', 'otype': t, 'secret': {'type': t, 'wrap': w}, 'ta': tmpl()})
             out.append({'op': 'Register', 'otype': t, 'secret': {'type': t, 'wrap': w, 'length_ok': False}, 'ta': tmpl()})
+    # optional parts of the nested structures left out; boundary integers in the numeric fields that reach the database
+    for t in ('SYMMETRIC_KEY', 'PUBLIC_KEY', 'PRIVATE_KEY', 'SPLIT_KEY'):
+        for miss in ('alg', 'len', 'both', 'value'):
+            out.append({'op': 'Register', 'otype': t, 'secret': {'type': t, 'missing': miss}, 'ta': tmpl()})
+            out.append({'op': 'Register', 'otype': t, 'secret': {'type': t, 'missing': miss}, 'ta': tmpl('Name', 'Cryptographic Usage Mask')})
+        for n in (0, 1, -1, 2 ** 31 - 1, -2 ** 31):
+            out.append({'op': 'Register', 'otype': t, 'secret': {'type': t, 'wrap': {'eki': True, 'eki_params': True, 'ints': n}}, 'ta': tmpl()})
+    for pfs in (0, 1, -1, 104729, 2 ** 31, 2 ** 63 - 1, 2 ** 63, 2 ** 64, -2 ** 63, -2 ** 63 - 1, 2 ** 200, -2 ** 200):
+        out.append({'op': 'Register', 'otype': 'SPLIT_KEY', 'secret': {'type': 'SPLIT_KEY', 'pfs': pfs}, 'ta': tmpl()})
+    for pfs in (2 ** 63, -2 ** 63 - 1):
+        out.append({'op': 'Register', 'otype': 'SPLIT_KEY', 'secret': {'type': 'SPLIT_KEY', 'pfs': pfs}, 'ta': tmpl('Name', 'x-custom')})
+        out.append({'op': 'Register', 'otype': 'SPLIT_KEY', 'secret': {'type': 'SPLIT_KEY', 'pfs': pfs}, 'ta': tmpl('Name', 'State')})
+        out.append({'op': 'Register', 'otype': 'SPLIT_KEY', 'secret': {'type': 'SPLIT_KEY', 'pfs': pfs, 'kft': 'OPAQUE'}, 'ta': tmpl('Name')})
+    for n in (0, 1, -1, 2 ** 31 - 1, -2 ** 31):
+        out.append({'op': 'Register', 'otype': 'SPLIT_KEY', 'secret': {'type': 'SPLIT_KEY', 'split_int': n}, 'ta': tmpl()})
     out.append({'op': 'Register', 'otype': 'CERTIFICATE', 'secret': {'type': 'CERTIFICATE', 'cert_type': 'PGP'}, 'ta': tmpl()})
     out.append({'op': 'Register', 'otype': 'SYMMETRIC_KEY', 'secret': {'type': 'SECRET_DATA'}, 'ta': tmpl()})
     out.append({'op': 'Register', 'otype': 'TEMPLATE', 'secret': {'type': 'SECRET_DATA'}, 'ta': tmpl()})
@@ -753,6 +802,70 @@ def locate_menu():
             {'op': 'Locate', 'attrs': [{'name': 'x-custom'}, {'name': 'State'}]},
             {'op': 'Locate', 'attrs': [], 'offset': 1, 'maximum': 2}, {'op': 'Locate', 'attrs': [], 'offset': 100},
             {'op': 'Locate', 'attrs': [], 'maximum': 0}]
+    return out
+
+
+def enum_sweep_menu(sym, priv, pub):
+    """Every member of every enumeration-typed cryptographic parameter, one parameter at a time around a valid base, on the
+    targets whose guards let the request through to the crypto engine (active symmetric / private / public key, all mask
+    bits); plus the full product RC4 x block cipher mode x padding method."""
+    out = []
+    pads = [None] + list(PAD)
+    aes = {'cryptographic_algorithm': ALG.AES, 'block_cipher_mode': MODE.CBC, 'padding_method': PAD.PKCS5}
+    for op in ('Encrypt', 'Decrypt'):
+        for a in ALG:
+            out.append({'op': op, 'uid': sym, 'params': dict(aes, cryptographic_algorithm=a), 'iv': None, 'data': b'\x07' * 16})
+        for m in MODE:
+            for iv in (None, b'\x01' * 16, b'\x01' * 12):
+                out.append({'op': op, 'uid': sym, 'params': dict(aes, block_cipher_mode=m, tag_length=16), 'iv': iv, 'data': b'\x07' * 16,
+                            'tag': (b'\x00' * 16 if op == 'Decrypt' else None)})
+        for pd in pads:
+            out.append({'op': op, 'uid': sym, 'params': dict(aes, padding_method=pd), 'iv': b'\x01' * 16, 'data': b'\x07' * 16})
+            out.append({'op': op, 'uid': sym, 'params': dict(aes, block_cipher_mode=MODE.ECB, padding_method=pd), 'iv': None, 'data': b'\x07' * 5})
+        for m in [None] + list(MODE):
+            for pd in pads:
+                out.append({'op': op, 'uid': sym, 'params': {'cryptographic_algorithm': ALG.RC4, 'block_cipher_mode': m, 'padding_method': pd,
+                                                             'tag_length': (16 if m == MODE.GCM else None)},
+                            'iv': None, 'data': b'abc', 'tag': (b'\x00' * 16 if op == 'Decrypt' and m == MODE.GCM else None)})
+        for h in HASH:
+            out.append({'op': op, 'uid': sym, 'params': {'cryptographic_algorithm': ALG.RSA, 'padding_method': PAD.OAEP, 'hashing_algorithm': h},
+                        'iv': None, 'data': b'abc'})
+    for a in ALG:
+        out.append({'op': 'MAC', 'uid': sym, 'params': {'cryptographic_algorithm': a}, 'data': b'data'})
+    rsa = {'cryptographic_algorithm': ALG.RSA, 'hashing_algorithm': HASH.SHA_256, 'padding_method': PAD.PSS}
+    for op, u, extra in (('Sign', priv, {}), ('SignatureVerify', pub, {'signature': b'\x01' * 128})):
+        for d in enums.DigitalSignatureAlgorithm:
+            for pd in (PAD.PSS, PAD.PKCS1v15, None):
+                out.append(dict({'op': op, 'uid': u, 'params': {'digital_signature_algorithm': d, 'padding_method': pd}, 'data': b'msg'}, **extra))
+            out.append(dict({'op': op, 'uid': u, 'params': dict(rsa, digital_signature_algorithm=d), 'data': b'msg'}, **extra))
+        for h in HASH:
+            for pd in (PAD.PSS, PAD.PKCS1v15):
+                out.append(dict({'op': op, 'uid': u, 'params': dict(rsa, hashing_algorithm=h, padding_method=pd), 'data': b'msg'}, **extra))
+        for pd in pads:
+            out.append(dict({'op': op, 'uid': u, 'params': dict(rsa, padding_method=pd), 'data': b'msg'}, **extra))
+        for a in ALG:
+            out.append(dict({'op': op, 'uid': u, 'params': dict(rsa, cryptographic_algorithm=a), 'data': b'msg'}, **extra))
+    hp = {'hashing_algorithm': HASH.SHA_256}
+    for meth in enums.DerivationMethod:
+        for dp in ({'params': hp}, {'params': hp, 'data': b'dd', 'salt': b'ss', 'iterations': 3},
+                   {'params': dict(aes), 'data': b'\x01' * 16, 'iv': b'\x02' * 16}):
+            out.append({'op': 'DeriveKey', 'otype': 'SYMMETRIC_KEY', 'uids': [sym], 'method': meth.name, 'dp': dp, 'ta': DERIVE_TA})
+    for h in HASH:
+        for meth, dp in (('HASH', {}), ('HMAC', {'data': b'dd', 'salt': b'ss'}), ('PBKDF2', {'salt': b'ss', 'iterations': 3}),
+                         ('NIST800_108_C', {'data': b'dd'})):
+            out.append({'op': 'DeriveKey', 'otype': 'SYMMETRIC_KEY', 'uids': [sym], 'method': meth,
+                        'dp': dict(dp, params={'hashing_algorithm': h}), 'ta': DERIVE_TA})
+    for a in ALG:
+        for m in (MODE.CBC, MODE.ECB, MODE.CTR, None):
+            out.append({'op': 'DeriveKey', 'otype': 'SYMMETRIC_KEY', 'uids': [sym], 'method': 'ENCRYPT',
+                        'dp': {'params': {'cryptographic_algorithm': a, 'block_cipher_mode': m, 'padding_method': PAD.PKCS5}, 'data': b'\x01' * 16,
+                               'iv': (b'\x02' * 16 if m == MODE.CBC else None)}, 'ta': DERIVE_TA})
+    A, L, M = 'Cryptographic Algorithm', 'Cryptographic Length', 'Cryptographic Usage Mask'
+    for a in ALG:
+        for n in (128, 192, 0, -8, 2 ** 31 - 1):
+            out.append({'op': 'Create', 'otype': 'SYMMETRIC_KEY', 'ta': tmpl({'name': A, 'val': a}, {'name': L, 'val': n}, M)})
+        for n in (512, 0, 1, -1, 2 ** 31 - 1):
+            out.append({'op': 'CreateKeyPair', 'common': tmpl({'name': A, 'val': a}, {'name': L, 'val': n}), 'private': tmpl(M), 'public': tmpl(M)})
     return out
 
 
@@ -843,9 +956,14 @@ def c_secret(sx):
             return None
         sym = t in ('SYMMETRIC_KEY', 'SPLIT_KEY')
         length = (128 if sym else 1024) + (8 if sx.get('length_ok') is False else 0)
-        return '(Some (SecKey %d %d %s %d %d %d))' % (OT[t].value, KFT[sx.get('kft', default)].value,
-                                                       cp.boolean(sx.get('length_ok') is not False), shape,
-                                                       (ALG.AES if sym else ALG.RSA).value, length)
+        missing = {None: 0, 'alg': 1, 'len': 2, 'both': 3, 'value': 4}[sx.get('missing')]
+        if missing and (shape != 0 or sx.get('length_ok') is False or sx.get('kft', default) != default):
+            return None        # the conversion table covers left-out parts for the canonical secret only
+        pfs = sx.get('pfs')
+        big = pfs is not None and not (-2 ** 63 <= pfs < 2 ** 63)
+        return '(Some (SecKey %d %d %s %d %d %d %d %s))' % (OT[t].value, KFT[sx.get('kft', default)].value,
+                                                             cp.boolean(sx.get('length_ok') is not False), shape,
+                                                             (ALG.AES if sym else ALG.RSA).value, length, missing, cp.boolean(big))
     if t == 'CERTIFICATE':
         return '(Some (SecCert %d))' % enums.CertificateType[sx.get('cert_type', 'X_509')].value
     return '(Some (SecOther %d))' % OT[t].value
@@ -1008,7 +1126,7 @@ class Grid:
     def header(self):
         return HEADER + ''.join('Definition %s : store := %s.\n' % (n, t) for t, n in self.stores.items())
 
-    def cell(self, drv, req, ver, store_obs, user='alice', desc=None):
+    def cell(self, drv, req, ver, store_obs, user='alice', desc=None, history=None):
         ctx = self.ctx
         store_obs = with_access(drv, store_obs, user, req['op'])
         obs = drv.run(mk_item(req), ver, user)
@@ -1019,7 +1137,7 @@ class Grid:
         ctx.count('version.%d.%d' % ver)
         if desc:
             ctx.count('target.%s' % desc)
-        witness = {'version': list(ver), 'user': user, 'request': jsonable(req), 'store': store_obs,
+        witness = {'version': list(ver), 'user': user, 'request': jsonable(req), 'store': store_obs, 'history': history,
                    'observed': {'status': obs['status'], 'reason': obs['reason'], 'crash': obs['crash'], 'crypto': obs['crypto'],
                                 'encode': obs.get('encode')}}
         # ---- direct oracle: the property itself, no model involved
@@ -1210,6 +1328,102 @@ def run_global(grid, ctx, ver, rng, sample):
         drv.close()
 
 
+def run_sweep(grid, ctx, ver):
+    drv = Driver(ctx)
+    try:
+        sym = add_object(drv, obj_spec('SYMMETRIC_KEY', 'Active', 'all'), 1)
+        priv = add_object(drv, obj_spec('PRIVATE_KEY', 'Active', 'all'), 2)
+        pub = add_object(drv, obj_spec('PUBLIC_KEY', 'Active', 'all'), 3)
+        store = observe_store(drv)
+        for req in enum_sweep_menu(sym, priv, pub):
+            obs = grid.cell(drv, req, ver, store, desc='sweep')
+            if req['op'] in MUTATING and obs['status'] == 'SUCCESS':
+                store = observe_store(drv)
+    finally:
+        drv.close()
+
+
+HISTORIES = [
+    # (what it is after, steps).  A step is (abstract request, target) where target None | 'newest' | 'oldest' | index into created
+    ('identifier reuse after destroying the newest object', [
+        ({'op': 'Register', 'otype': 'SYMMETRIC_KEY', 'secret': {'type': 'SYMMETRIC_KEY'}, 'ta': {'attrs': [{'name': 'Name'}], 'tnames': False}}, None),
+        ({'op': 'Register', 'otype': 'SYMMETRIC_KEY', 'secret': {'type': 'SYMMETRIC_KEY'}, 'ta': {'attrs': [], 'tnames': False}}, None),
+        ({'op': 'Destroy'}, 'newest'),
+        ({'op': 'Create', 'otype': 'SYMMETRIC_KEY', 'ta': 'KEY'}, None),
+        ({'op': 'Get'}, 'newest'), ({'op': 'GetAttributes', 'names': None}, 'newest'), ({'op': 'Locate', 'attrs': []}, None)]),
+    ('destroy newest then create a pair, across object classes', [
+        ({'op': 'Register', 'otype': 'CERTIFICATE', 'secret': {'type': 'CERTIFICATE'}, 'ta': {'attrs': [], 'tnames': False}}, None),
+        ({'op': 'Register', 'otype': 'OPAQUE_DATA', 'secret': {'type': 'OPAQUE_DATA'}, 'ta': {'attrs': [], 'tnames': False}}, None),
+        ({'op': 'Destroy'}, 'newest'),
+        ({'op': 'CreateKeyPair', 'common': 'PAIR', 'private': 'MASK', 'public': 'MASK'}, None),
+        ({'op': 'Destroy'}, 'newest'),
+        ({'op': 'Register', 'otype': 'SECRET_DATA', 'secret': {'type': 'SECRET_DATA'}, 'ta': {'attrs': [{'name': 'Name'}], 'tnames': False}}, None),
+        ({'op': 'GetAttributeList'}, 'newest'), ({'op': 'Locate', 'attrs': [{'name': 'Object Type'}]}, None)]),
+    ('destroy everything then create', [
+        ({'op': 'Create', 'otype': 'SYMMETRIC_KEY', 'ta': 'KEY'}, None),
+        ({'op': 'Destroy'}, 'newest'),
+        ({'op': 'Create', 'otype': 'SYMMETRIC_KEY', 'ta': 'KEY'}, None),
+        ({'op': 'Activate'}, 'newest'), ({'op': 'Revoke', 'code': 'KEY_COMPROMISE'}, 'newest'),
+        ({'op': 'Revoke', 'code': 'KEY_COMPROMISE'}, 'newest'), ({'op': 'Destroy'}, 'newest'),
+        ({'op': 'Register', 'otype': 'SPLIT_KEY', 'secret': {'type': 'SPLIT_KEY'}, 'ta': {'attrs': [], 'tnames': False}}, None)]),
+]
+
+
+def _history_request(req, created):
+    r = dict(req)
+    A, L, M = 'Cryptographic Algorithm', 'Cryptographic Length', 'Cryptographic Usage Mask'
+    for k, v in list(r.items()):
+        if v == 'KEY':
+            r[k] = tmpl(A, L, M)
+        elif v == 'PAIR':
+            r[k] = tmpl({'name': A, 'val': ALG.RSA}, {'name': L, 'val': 1024})
+        elif v == 'MASK':
+            r[k] = tmpl(M)
+    return r
+
+
+def run_histories(grid, ctx, rng, n_random):
+    """Request histories on one engine (identifiers issued, destroyed and issued again; an engine restart in between):
+    every step is a grid cell of its own, with the steps before it recorded in the witness so that a replay can redo them."""
+    scripts = list(HISTORIES)
+    makers = [s for s in HISTORIES[0][1][:2]] + [HISTORIES[1][1][0], HISTORIES[1][1][1], HISTORIES[1][1][3], HISTORIES[2][1][0], HISTORIES[2][1][7]]
+    others = [({'op': 'Destroy'}, 'newest'), ({'op': 'Destroy'}, 'newest'), ({'op': 'Destroy'}, 'oldest'), ({'op': 'Activate'}, 'newest'),
+              ({'op': 'Revoke', 'code': 'KEY_COMPROMISE'}, 'newest'), ({'op': 'Get'}, 'newest'), ({'op': 'GetAttributes', 'names': None}, 'oldest'),
+              ({'op': 'Locate', 'attrs': []}, None), ('RESTART', None)]
+    for k in range(n_random):
+        steps = []
+        for j in range(rng.randint(6, 14)):
+            steps.append(rng.choice(makers) if rng.random() < 0.5 else rng.choice(others))
+        scripts.append(('seeded random history %d' % k, steps))
+    for what, steps in scripts:
+        drv = Driver(ctx)
+        try:
+            ver = rng.choice(kdrv.VERSIONS)
+            created, history = [], []
+            for req, target in steps:
+                if req == 'RESTART':
+                    drv.eng.restart()
+                    drv.attach()
+                    history.append('RESTART')
+                    continue
+                r = _history_request(req, created)
+                if target is not None:
+                    live = [o['uid'] for o in observe_store(drv)]
+                    if target == 'newest':
+                        r['uid'] = max(live) if live else (created[-1] if created else 1)
+                    elif target == 'oldest':
+                        r['uid'] = min(live) if live else 1
+                obs = grid.cell(drv, r, ver, observe_store(drv), desc='history', history=list(history))
+                history.append(jsonable(r))
+                if obs['status'] == 'SUCCESS' and obs.get('payload'):
+                    p = obs['payload']
+                    for key in ('unique_identifier', 'private_key_unique_identifier'):
+                        if r['op'] in ('Create', 'Register', 'CreateKeyPair', 'DeriveKey') and p.get(key) is not None:
+                            created.append(int(str(p[key])))
+        finally:
+            drv.close()
+
+
 def run_random(grid, ctx, rng, rounds, per_round):
     """Seeded random well-typed requests over random stores (two identities)."""
     for k in range(rounds):
@@ -1270,6 +1484,19 @@ CORPUS = [
                                          'dp': {'params': SYM_PARAMS[2], 'data': b'\x01' * 16, 'iv': b'\x02' * 8}, 'ta': DERIVE_TA}),
     ((1, 2), 'SYMMETRIC_KEY', 'Active', {'op': 'DeriveKey', 'otype': 'SYMMETRIC_KEY', 'uids': 'TARGET', 'method': 'ENCRYPT',
                                          'dp': {'params': SYM_PARAMS[2]}, 'ta': DERIVE_TA}),
+    ((1, 2), 'SYMMETRIC_KEY', 'Active', {'op': 'Encrypt', 'params': {'cryptographic_algorithm': ALG.RC4, 'block_cipher_mode': MODE.CBC,
+                                                                      'padding_method': PAD.PKCS5}, 'iv': None, 'data': b'abc'}),
+    ((1, 2), 'SYMMETRIC_KEY', 'Active', {'op': 'Decrypt', 'params': {'cryptographic_algorithm': ALG.RC4, 'block_cipher_mode': MODE.GCM,
+                                                                      'tag_length': 16}, 'iv': None, 'data': b'abc', 'tag': b'\x00' * 16}),
+    ((1, 2), 'PRIVATE_KEY', 'Active', {'op': 'Sign', 'params': {'digital_signature_algorithm': enums.DigitalSignatureAlgorithm.ECDSA_WITH_SHA256,
+                                                                  'padding_method': PAD.PSS}, 'data': b'msg'}),
+    # Register family (no stored target)
+    ((1, 2), None, None, {'op': 'Register', 'otype': 'SYMMETRIC_KEY', 'secret': {'type': 'SYMMETRIC_KEY', 'missing': 'alg'}, 'ta': {'attrs': [], 'tnames': False}}),
+    ((1, 4), None, None, {'op': 'Register', 'otype': 'PRIVATE_KEY', 'secret': {'type': 'PRIVATE_KEY', 'missing': 'value'}, 'ta': {'attrs': [], 'tnames': False}}),
+    ((2, 0), None, None, {'op': 'Register', 'otype': 'SPLIT_KEY', 'secret': {'type': 'SPLIT_KEY', 'missing': 'len'}, 'ta': {'attrs': [], 'tnames': False}}),
+    ((1, 0), None, None, {'op': 'Register', 'otype': 'SPLIT_KEY', 'secret': {'type': 'SPLIT_KEY', 'missing': 'value'}, 'ta': {'attrs': [], 'tnames': False}}),
+    ((1, 2), None, None, {'op': 'Register', 'otype': 'SPLIT_KEY', 'secret': {'type': 'SPLIT_KEY', 'pfs': 2 ** 63}, 'ta': {'attrs': [], 'tnames': False}}),
+    ((1, 2), None, None, {'op': 'Register', 'otype': 'SPLIT_KEY', 'secret': {'type': 'SPLIT_KEY', 'pfs': 2 ** 63 - 1}, 'ta': {'attrs': [], 'tnames': False}}),
 ]
 
 
@@ -1277,8 +1504,11 @@ def run_corpus(grid, ctx):
     for ver, t, st, req in CORPUS:
         drv = Driver(ctx)
         try:
-            uid = add_object(drv, obj_spec(t, st, 'all', names=1), 1)
             r = dict(req)
+            if t is None:
+                grid.cell(drv, r, ver, observe_store(drv), desc='corpus')
+                continue
+            uid = add_object(drv, obj_spec(t, st, 'all', names=1), 1)
             if r.get('uids') == 'TARGET':
                 r['uids'] = [uid]
             else:
@@ -1326,6 +1556,10 @@ def run(ctx):
         run_aux(grid, ctx, ver, rng, (1, 4) if quick else None)
         run_global(grid, ctx, ver, rng, (1, 10) if quick else None)
         ctx.log('version %d.%d done: %d cells, %d distinct cases, %d GENERAL_FAILURE' % (ver[0], ver[1], grid.cells, len(grid.cases), grid.crashes))
+    sweep_versions = [ctx.subrng('sweep').choice([(1, 2), (1, 3), (1, 4), (2, 0)])] if quick else [(1, 0), (1, 2), (1, 3), (1, 4), (2, 0)]
+    for ver in sweep_versions:
+        run_sweep(grid, ctx, ver)
+    run_histories(grid, ctx, ctx.subrng('histories'), 6 if quick else 60)
     run_random(grid, ctx, ctx.subrng('random'), 12 if quick else 60, 40 if quick else 120)
     ctx.log('cells %d, distinct cases %d, stores %d, GENERAL_FAILURE cells %d' % (grid.cells, len(grid.cases), len(grid.stores), grid.crashes))
     ctx.cov['cells'] = grid.cells
@@ -1371,6 +1605,23 @@ def replay(ctx, data):
     if w is None:
         print('replay file holds no concrete input (broken obligation without failing input): re-run bin/check C13')
         return 2
+    if w.get('setup') is not None:
+        class Sink:
+            work = ctx.work
+
+            def violation(self, sig, witness, what):
+                print('VIOLATION property=C13 replay reproduces: %s' % what)
+        drv = Driver(Sink())
+        try:
+            for spec, k in w['setup']:
+                add_object(drv, spec, k)
+            print('replay does not reproduce: the store set-up succeeded')
+            return 0
+        except SetupFailed as e:
+            print(str(e)[:300])
+            return 1
+        finally:
+            drv.close()
     req = _unjson(w['request'])
     for k in ('versions',):
         if k in req:
@@ -1381,7 +1632,17 @@ def replay(ctx, data):
     try:
         states = {1: 'PreActive', 2: 'Active', 3: 'Deactivated', 4: 'Compromised', None: 'PreActive'}
         uidmap = {}
-        for k, o in enumerate(w.get('store', [])):
+        history = w.get('history')
+        if history is not None:
+            # a history cell: redo the recorded steps on a fresh engine (identifiers are issued deterministically)
+            for h in history:
+                if h == 'RESTART':
+                    drv.eng.restart()
+                    drv.attach()
+                else:
+                    o = drv.run(mk_item(_unjson(h)), ver, user)
+                    print('  history step %s -> %s %s' % (h.get('op'), o['status'], o['reason']))
+        for k, o in enumerate(w.get('store', []) if history is None else []):
             tname = enums.ObjectType(o['otype']).name
             spec = obj_spec(tname, states.get(o['state'], 'Active'), 'all' if o['mask'] else 'none', names=len(o['names']),
                             asi=len(o['asi']), groups=len(o['groups']), owner=o.get('owner') or 'alice', empty=o.get('value_empty', False))
